@@ -280,7 +280,130 @@ func TestVerifC11(t *testing.T) {
 		}
 		c.srv.stop()
 	}
+	vC11Replicated(out, stats)
 	out.emit(vM{"k": "stat", "dist": stats})
+}
+
+// vC11Replicated: the cursors partition with a second, phantom replica (partdrv_test.go).
+//  (1) SetCursor must not report success before the in-sync replica has the record;
+//  (2) after the leadership went to the other replica, which stored a newer cursor, and came back,
+//      FetchCursor must not answer from what this server cached in its earlier term.
+func vC11Replicated(out *vOut, stats map[string]int) {
+	srv := vStartServer("a", func(cfg *Config) {
+		vPartConfig(1)(cfg)
+		cfg.Clustering.ReplicaMaxIdleWait = 4 * time.Second
+		cfg.Clustering.ReplicaMaxLeaderTimeout = time.Hour
+	})
+	defer srv.stop()
+	v, err := vNewPart(srv, cursorsStream, []string{"a", "b"}, func(st *proto.Stream) {
+		st.Subject = srv.s.cursors.getCursorStreamSubject()
+		st.Partitions[0].Subject = st.Subject
+		st.Config = &proto.StreamConfig{CompactEnabled: &proto.NullableBool{Value: true}}
+	})
+	if err != nil {
+		out.emit(vM{"k": "violation", "sig": "replicated-setup", "what": err.Error(), "case": vM{"k": "curepl"}})
+		return
+	}
+	defer v.close()
+	b := vNewSimLeader(v, "b")
+	defer b.close()
+	desc := vM{"k": "curepl"}
+	set := func(off int64, timeout time.Duration) error {
+		ctx, cancel := context.WithTimeout(context.Background(), timeout)
+		defer cancel()
+		_, err := srv.api.SetCursor(ctx, &client.SetCursorRequest{Stream: "foo", Partition: 0, CursorId: "cur", Offset: off})
+		return err
+	}
+	fetch := func() (int64, error) {
+		ctx, cancel := context.WithTimeout(context.Background(), 5*time.Second)
+		defer cancel()
+		resp, err := srv.api.FetchCursor(ctx, &client.FetchCursorRequest{Stream: "foo", Partition: 0, CursorId: "cur"})
+		if err != nil {
+			return 0, err
+		}
+		return resp.Offset, nil
+	}
+	// (1) the follower does not report: the ALL-policy publish behind SetCursor cannot be acknowledged
+	if err := set(5, 1500*time.Millisecond); err == nil {
+		out.emit(vM{"k": "violation", "sig": "cursor-stored-without-isr", "case": desc,
+			"what": "SetCursor reported success while the other in-sync replica of the cursors partition had not received the record (newest offset on the leader " + fmt.Sprint(v.p.log.NewestOffset()) + ", follower reported nothing)"})
+	}
+	stats["replicated/set-without-follower"]++
+	// the follower catches up: the record (stored by the attempt above) commits; store 5 for good
+	stopAuto := make(chan struct{})
+	go func() {
+		for {
+			select {
+			case <-stopAuto:
+				return
+			case <-time.After(5 * time.Millisecond):
+				v.follower("b", v.p.log.NewestOffset())
+			}
+		}
+	}()
+	if err := set(5, 5*time.Second); err != nil {
+		out.emit(vM{"k": "violation", "sig": "replicated-set-failed", "what": "SetCursor with a reporting follower failed: " + err.Error(), "case": desc})
+		close(stopAuto)
+		return
+	}
+	if got, err := fetch(); err != nil || got != 5 {
+		out.emit(vM{"k": "violation", "sig": "fetch-not-last-set", "what": fmt.Sprintf("FetchCursor after SetCursor(5) answered %d %v", got, err), "case": desc})
+	}
+	close(stopAuto)
+	time.Sleep(20 * time.Millisecond)
+	// (2) b takes over with a's log plus a newer cursor record, a replicates it, a leads again
+	_, e1 := v.p.GetLeader()
+	for _, m := range vLogDump(v.p) {
+		_ = m
+	}
+	rd, _ := v.p.log.NewReader(0, true)
+	hb := make([]byte, 28)
+	for {
+		ctx, cancel := context.WithCancel(context.Background())
+		cancel()
+		msg, _, _, ep, err := rd.ReadMessage(ctx, hb)
+		if err != nil {
+			break
+		}
+		b.appendKV(ep, append([]byte{}, msg.Key()...), append([]byte{}, msg.Value()...))
+	}
+	_ = e1
+	b.gated = true
+	b.hw = b.log.NewestOffset()
+	e2, err := b.lead()
+	if err != nil {
+		out.emit(vM{"k": "violation", "sig": "replicated-setup", "what": err.Error(), "case": desc})
+		return
+	}
+	cur := &proto.Cursor{Stream: "foo", Partition: 0, CursorId: "cur", Offset: 10}
+	val, _ := cur.Marshal()
+	b.appendKV(e2, srv.s.cursors.getCursorKey("cur", "foo", 0), val)
+	b.mu.Lock()
+	b.hw = b.log.NewestOffset()
+	b.budget = 10
+	b.mu.Unlock()
+	b.wakeFollower()
+	select {
+	case <-b.served:
+	case <-time.After(8 * time.Second):
+	}
+	time.Sleep(100 * time.Millisecond)
+	if _, err := b.handBack(); err != nil {
+		out.emit(vM{"k": "violation", "sig": "replicated-setup", "what": err.Error(), "case": desc})
+		return
+	}
+	go func() {
+		for i := 0; i < 400; i++ {
+			v.follower("b", v.p.log.NewestOffset())
+			time.Sleep(5 * time.Millisecond)
+		}
+	}()
+	if got, err := fetch(); err != nil || got != 10 {
+		out.emit(vM{"k": "violation", "sig": "stale-cursor-after-leader-change", "case": desc,
+			"what": fmt.Sprintf("this server cached cursor 5 while leading; the other replica led, stored cursor 10 (replicated here), and this server leads again: FetchCursor answers %d %v", got, err)})
+	}
+	stats["replicated/leader-change"]++
+	out.emit(desc)
 }
 
 // vC11Concurrent: one writer per key storing increasing offsets, readers fetching the same keys,
